@@ -74,6 +74,7 @@ struct Sub {
   int thorough_n;                          // cases per process in the thorough tier
   int max_size;                            // rapidcheck max_size
   bool nofork = false;                     // run the predicate in-process (cheap pure predicates)
+  int timeout_s = 0;                       // wall-clock alarm of one case (0 = engine default); hitting it is INCONCLUSIVE, never a violation
 };
 
 struct Property {
